@@ -9,6 +9,7 @@ import Ajson.Model.Cmp
 import Ajson.Model.Encode
 import Ajson.Model.Decode
 import Ajson.Model.Dump
+import Ajson.Model.Path
 
 namespace Ajson
 
@@ -16,6 +17,7 @@ structure Session where
   h : Heap := {}
   handles : List (Option Id) := []
   fmts : List (UInt64 × Bytes) := []
+  oracle : Oracle := {}
   deriving Inhabited
 
 namespace Session
@@ -105,6 +107,16 @@ def parseKV (s : Session) (x : String) : Option (Option (List (Bytes × Id))) :=
 def parseInt (x : String) : Option Int :=
   if x.startsWith "-" then (x.drop 1).toNat?.map (fun n => - Int.ofNat n) else x.toNat?.map Int.ofNat
 
+def env (s : Session) : Heap.Env := { tbl := builtinTable, oracle := { s.oracle with fmt := s.fmts } }
+
+/-- a result node of a query: a node of the held trees by its number, else a fresh value -/
+def resultNode (s : Session) (h : Heap) (order : List Id) (n : Id) : Heap × String :=
+  if order.contains n then (h, "n" ++ numOf order n)
+  else match h.unpack (h.size + 1) n with
+    | (h1, .ok v) => (h1, s!"new({(h.typeOf n).code}:{v.canonNaN})")
+    | (h1, .err e) => (h1, s!"new({(h.typeOf n).code}:err {e.typ.code})")
+    | (h1, .panic site) => (h1, "panic " ++ site)
+
 def parseBits (x : String) : Option UInt64 :=
   (fromHex x).bind (fun bs => if bs.length == 8 then some (bs.foldl (fun acc b => acc * 256 + b.toUInt64) 0) else none)
 
@@ -142,6 +154,36 @@ def step (s : Session) (f : List String) : Session × String :=
     | some bits, some t => ({ s with fmts := (bits, t) :: s.fmts }, "ok")
     | _, _ => (s, "bad-req")
   | ["dump"] => (s, s.dump)
+  | ["oracle", "math1", name, a, r] => match parseBits a, parseBits r with
+    | some a, some r => ({ s with oracle := { s.oracle with math1 := (name, a, r) :: s.oracle.math1 } }, "ok")
+    | _, _ => (s, "bad-req")
+  | ["oracle", "pow", a, b, r] => match parseBits a, parseBits b, parseBits r with
+    | some a, some b, some r => ({ s with oracle := { s.oracle with pow := (a, b, r) :: s.oracle.pow } }, "ok")
+    | _, _, _ => (s, "bad-req")
+  | ["oracle", "pow10", i, r] => match parseInt i, parseBits r with
+    | some i, some r => ({ s with oracle := { s.oracle with pow10 := (i, r) :: s.oracle.pow10 } }, "ok")
+    | _, _ => (s, "bad-req")
+  | ["oracle", "regex", pat, str, r] => match fromHex pat, fromHex str with
+    | some pat, some str => ({ s with oracle := { s.oracle with regex := (pat, str, if r == "e" then none else some (r == "1")) :: s.oracle.regex } }, "ok")
+    | _, _ => (s, "bad-req")
+  | ["oracle", "b64", x, r] => match fromHex x with
+    | some x => ({ s with oracle := { s.oracle with b64dec := (x, if r == "e" then none else fromHex r) :: s.oracle.b64dec } }, "ok")
+    | none => (s, "bad-req")
+  | ["jsonpath", x, p] => match parseHandle s x, fromHex p with
+    | some n, some p => match s.h.jsonPath s.env n p with
+      | (h, .ok ids) =>
+        let (h', strs) := ids.foldl (fun (acc : Heap × List String) id => let (h2, str) := s.resultNode acc.1 order id; (h2, acc.2 ++ [str])) (h, [])
+        ({ s with h := h' }, "ok [" ++ ",".intercalate strs ++ "]")
+      | (h, .err e) => ({ s with h := h }, s!"err {e.typ.code}")
+      | (h, .panic site) => ({ s with h := h }, if site.startsWith "oracle:" then "oracle-missing" else "panic " ++ site)
+    | _, _ => (s, "bad-req")
+  | ["eval", x, e] => match parseHandle s x, fromHex e with
+    | some n, some e => match s.h.evalExpr s.env n e with
+      | (h, .ok (some r)) => let (h', str) := s.resultNode h order r; ({ s with h := h' }, "ok " ++ str)
+      | (h, .ok none) => ({ s with h := h }, "ok nil")
+      | (h, .err er) => ({ s with h := h }, s!"err {er.typ.code}")
+      | (h, .panic site) => ({ s with h := h }, if site.startsWith "oracle:" then "oracle-missing" else "panic " ++ site)
+    | _, _ => (s, "bad-req")
   | ["parse", x] => match fromHex x with
     | some bs => match unmarshalIn s.h bs with
       | .ok (h, r) => (s.bind h r, "ok")
